@@ -456,8 +456,10 @@ func (w *pw) stmt(s *Stmt, st Style, tag string) {
 		w.addNL("}")
 	case "break":
 		w.addNL("break").Tag = tag
+		s.PI = len(w.ps) - 1
 	case "continue":
 		w.addNL("continue").Tag = tag
+		s.PI = len(w.ps) - 1
 	case "poryswitch":
 		w.addNL("poryswitch")
 		w.add("(")
